@@ -153,4 +153,89 @@ theorem decodeHdr_alg (ms : List Member) (h0 h : Hdr) (a : String)
             exact hj
         exact ih h1 hd hj'
 
+/-! ### where a decoded field comes from -/
+
+theorem step_provenance (h h' : Hdr) (m : Member) (hs : step h m = some h') :
+    (h'.scheme ≠ h.scheme → m.key = kScheme) ∧
+    (h'.expiry ≠ h.expiry → m.key = kExpiry) ∧
+    (h'.authSigningTime ≠ h.authSigningTime → m.key = kAuthSigningTime) ∧
+    (h'.signingTime ≠ h.signingTime → m.key = kSigningTime) := by
+  unfold step at hs
+  split at hs
+  · obtain ⟨s, _, rfl⟩ := Option.map_eq_some_iff.mp hs; simp
+  · split at hs
+    · obtain ⟨s, _, rfl⟩ := Option.map_eq_some_iff.mp hs; simp
+    · split at hs
+      · rename_i hk
+        obtain ⟨s, _, rfl⟩ := Option.map_eq_some_iff.mp hs
+        simp; intro _; simpa using hk
+      · split at hs
+        · obtain ⟨s, _, rfl⟩ := Option.map_eq_some_iff.mp hs; simp
+        · split at hs
+          · rename_i hk
+            obtain ⟨s, _, rfl⟩ := Option.map_eq_some_iff.mp hs
+            simp; intro _; simpa using hk
+          · split at hs
+            · rename_i hk
+              obtain ⟨s, _, rfl⟩ := Option.map_eq_some_iff.mp hs
+              simp; intro _; simpa using hk
+            · split at hs
+              · rename_i hk
+                obtain ⟨s, _, rfl⟩ := Option.map_eq_some_iff.mp hs
+                simp; intro _; simpa using hk
+              · simp only [Option.some.injEq] at hs; subst hs; simp
+
+theorem decodeHdr_provenance (ms : List Member) (h0 h : Hdr) (hd : decodeHdr ms h0 = some h) :
+    (h.scheme ≠ h0.scheme → kScheme ∈ ms.map (·.key)) ∧
+    (h.expiry ≠ h0.expiry → kExpiry ∈ ms.map (·.key)) ∧
+    (h.authSigningTime ≠ h0.authSigningTime → kAuthSigningTime ∈ ms.map (·.key)) ∧
+    (h.signingTime ≠ h0.signingTime → kSigningTime ∈ ms.map (·.key)) := by
+  induction ms generalizing h0 with
+  | nil => simp only [decodeHdr, Option.some.injEq] at hd; subst hd; simp
+  | cons m ms ih =>
+    simp only [decodeHdr] at hd
+    cases hs : step h0 m with
+    | none => rw [hs] at hd; cases hd
+    | some h1 =>
+      rw [hs] at hd
+      simp only [Option.bind_some] at hd
+      obtain ⟨i1, i2, i3, i4⟩ := ih h1 hd
+      obtain ⟨s1, s2, s3, s4⟩ := step_provenance h0 h1 m hs
+      simp only [List.map_cons, List.mem_cons]
+      refine ⟨?_, ?_, ?_, ?_⟩
+      · intro hne
+        by_cases hx : h.scheme = h1.scheme
+        · left; exact (s1 (by rw [← hx]; exact hne)).symm
+        · right; exact i1 hx
+      · intro hne
+        by_cases hx : h.expiry = h1.expiry
+        · left; exact (s2 (by rw [← hx]; exact hne)).symm
+        · right; exact i2 hx
+      · intro hne
+        by_cases hx : h.authSigningTime = h1.authSigningTime
+        · left; exact (s3 (by rw [← hx]; exact hne)).symm
+        · right; exact i3 hx
+      · intro hne
+        by_cases hx : h.signingTime = h1.signingTime
+        · left; exact (s4 (by rw [← hx]; exact hne)).symm
+        · right; exact i4 hx
+
+theorem extMembers_go_subset (l : List Member) : ∀ m ∈ extMembers.go l, m ∈ l := by
+  induction l with
+  | nil => intro m hm; simp [extMembers.go] at hm
+  | cons a as ih =>
+    intro m hm
+    simp only [extMembers.go] at hm
+    split at hm
+    · exact List.mem_cons_of_mem _ (ih m hm)
+    · rcases List.mem_cons.mp hm with rfl | hm
+      · simp
+      · exact List.mem_cons_of_mem _ (ih m hm)
+
+theorem extMembers_subset (ms : List Member) : ∀ m ∈ extMembers ms, m ∈ ms := by
+  intro m hm
+  have : m ∈ ms.filter (fun m => !Generated.jwsHeaderKeys.contains m.key) := extMembers_go_subset _ m hm
+  exact (List.mem_filter.mp this).1
+
+
 end NotationCore.Proofs.Jws
